@@ -66,12 +66,29 @@ func (s inputSpec) build() []byte {
 			i += n
 		}
 	case "plant":
-		// random background with a segment of P2 bytes repeated exactly P1 bytes later
-		r.Read(b)
+		// compressible background (so that the compressors' adaptive skipping stays small) with
+		// unique random segments of P2 bytes repeated exactly P1 bytes later; Seed picks the
+		// background.  Several plants per input when it is long enough.
 		d, m := s.P1, s.P2
-		if d > 0 && d+m+20 <= len(b) {
-			at := 16 + r.Intn(len(b)-d-m-19)
-			copy(b[at+d:at+d+m], b[at:at+m])
+		switch s.Seed % 3 {
+		case 0: // zeros
+		case 1:
+			for i := 0; i < len(b); {
+				k := r.Intn(len(words) - 12)
+				i += copy(b[i:], words[k:k+3+r.Intn(9)])
+			}
+		default:
+			for i := range b {
+				b[i] = byte('a' + r.Intn(2))
+			}
+		}
+		seg := make([]byte, m)
+		for at := 16 + r.Intn(64); d > 0 && at+d+m+16 <= len(b); at += d + m + 32 + r.Intn(4096) {
+			for i := range seg {
+				seg[i] = byte(128 + r.Intn(128)) // never occurs in any background
+			}
+			copy(b[at:], seg)
+			copy(b[at+d:], seg)
 		}
 	case "alias":
 		// the same 8-byte word at positions k, k+65536 and k+131072, different bytes after it:
